@@ -2,7 +2,8 @@
    conn = the scheduler-relevant part of bfe_http2.serverConn (model/H2Ctl.v): `zero c` is writeSched.zero (the control
    frames waiting to be written), `queued c` is sc.queuedControlFrames, `closed c` says that serve() has returned (which
    closes the connection).  run_events limit c evs = the state after the serve loop handled the events evs one per
-   iteration (PING, SETTINGS, DATA on unknown streams, handler frames, RST_STREAM, writer completions, ...), each
+   iteration (PING, SETTINGS, DATA on unknown streams, handler frames, RST_STREAM, graceful GOAWAY, writer completions,
+   ...), each
    iteration ending with the check `queuedControlFrames > limit -> return`. *)
 From Coq Require Import List ZArith Bool.
 From Bfe Require Import lib.Val model.H2Ctl run.RunC37 proofs.H2CtlProofs.
@@ -40,6 +41,15 @@ Theorem C37_flood_closes : forall limit ids,
   closed c = true /\ queued c = limit + 1 /\ Z.of_nat (length (zero c)) = limit + 1.
 Proof. exact flood_closes. Qed.
 Print Assumptions C37_flood_closes.
+
+(* Graceful shutdown (CloseNotifyCh closed -> goAway(NO_ERROR): in_goaway) does not switch the accounting off: the same
+   flood after the GOAWAY is still counted and closes the connection at limit + 1 pending frames. *)
+Theorem C37_flood_closes_in_goaway : forall limit ids,
+  0 <= limit -> limit < Z.of_nat (length ids) ->
+  let c := run_events limit conn_blocked (EGoAway :: map EPing ids) in
+  closed c = true /\ queued c = limit + 1 /\ Z.of_nat (length (zero c)) = limit + 1 /\ in_goaway c = true.
+Proof. exact flood_closes_goaway. Qed.
+Print Assumptions C37_flood_closes_in_goaway.
 
 (* ... and up to `limit` PINGs are tolerated: the connection stays open and every ack is still queued, in order. *)
 Theorem C37_flood_below_stays_open : forall limit ids,
